@@ -907,7 +907,7 @@ func (z *ZodRecord[T, R]) parseSchemaValueAny(value any, schema any) (any, error
 		if !parseMethod.IsValid() {
 			return value, nil
 		}
-		results := parseMethod.Call([]reflect.Value{reflect.ValueOf(value)})
+		results := parseMethod.Call([]reflect.Value{reflectArg(value, parseMethod.Type())})
 		if len(results) >= 2 {
 			if errInterface := results[1].Interface(); errInterface != nil {
 				if err, ok := errInterface.(error); ok {
@@ -922,7 +922,7 @@ func (z *ZodRecord[T, R]) parseSchemaValueAny(value any, schema any) (any, error
 	}
 
 	// Call ParseAny method.
-	results := parseAnyMethod.Call([]reflect.Value{reflect.ValueOf(value)})
+	results := parseAnyMethod.Call([]reflect.Value{reflectArg(value, parseAnyMethod.Type())})
 	if len(results) >= 2 {
 		if errInterface := results[1].Interface(); errInterface != nil {
 			if err, ok := errInterface.(error); ok {
@@ -934,6 +934,15 @@ func (z *ZodRecord[T, R]) parseSchemaValueAny(value any, schema any) (any, error
 		return results[0].Interface(), nil
 	}
 	return value, nil
+}
+
+// reflectArg returns value as the first argument of a reflective call to a method of type mt.
+// A nil interface has no reflect.Value, so the zero value of the parameter type is passed instead.
+func reflectArg(value any, mt reflect.Type) reflect.Value {
+	if arg := reflect.ValueOf(value); arg.IsValid() {
+		return arg
+	}
+	return reflect.Zero(mt.In(0))
 }
 
 // validateValue validates a single value using the provided schema.
@@ -959,7 +968,12 @@ func (z *ZodRecord[T, R]) validateValue(value any, schema any, ctx *core.ParseCo
 	}
 
 	// Build arguments for Parse call.
-	args := []reflect.Value{reflect.ValueOf(value)}
+	arg := reflect.ValueOf(value)
+	if !arg.IsValid() {
+		// A nil interface has no reflect.Value; pass the zero value of the parameter type instead.
+		arg = reflect.Zero(methodType.In(0))
+	}
+	args := []reflect.Value{arg}
 	if acceptsParseContext(methodType) {
 		// Add context parameter if expected.
 		args = append(args, reflect.ValueOf(ctx))
